@@ -14,6 +14,8 @@ CLAIMED = {
  "C10": ("7 C10", "TLC model checking of the profile spec (every sequence over 6 letters up to a bound x every window: coded flank arithmetic = documented placement, w=N value = global parameter, delta = mean squared deviation of the w=5,6 sigma profiles) + replay of every state x every window 1..N+3 into the five get_linear_* calls against TLC's exact profiles + TLC trace validation on random sequences x windows x user group lists", NOTE),
  "C11": ("7 C11", "TLC model checking of the complexity geometry (every (N,w,s) up to a bound: K windows, coded position row strictly increasing in 1..N; LC/LZW in [0,1] on every 3-letter window) + TLC trace validation of every get_linear_complexity reply on exhaustive short and random sequences (K, positions, range, locality against the window alone, WF = entropy kernel over reduced counts; unknown type / w>N rejected)", NOTE + "; the entropy kernel -(c/W)log_k(c/W) is computed by the harness with 60-digit decimals"),
  "C12": ("7 C12", "TLC model checking of the documented partitions (exactly size groups, disjoint cover, idempotent homomorphism; sizes 0..25) + the real residue map of all 12 sizes x 20 residues and replies on random sequences / user alphabets of every class judged by TLC against the partitions and the acceptance rule", NOTE),
+ "C13": ("7 C13", "TLC model checking of string normalisation (every token string up to a bound over ten character classes: clean, idempotent, foreign/blank rejected, whitespace irrelevant) + replay of every state with seeded concrete characters into SequenceParameters() + TLC trace validation (Trace_Input) of constructions recorded for case/whitespace-injected sequences and every code point 0..0x2FF (+ Unicode sample) at every position", NOTE + "; Python's str.upper/str.isspace tables are exported to TLC as data"),
+ "C14": ("7 C14", "TLC model checking of the file-parser state machine (every file up to a bound over ten character classes built and parsed by BlankLine/HeaderLine/SeqLine/Finish actions: the machine accepts exactly the documentation's reading with the same residues; reject sticky; one header) + replay of every such file through real files into parseSeqFile / SequenceParameters(sequenceFile=) + TLC trace validation of realistic layouts and all single-character corruptions", NOTE),
  "C05": ("7 C05", "TLC model checking (delta numerator, SCD coefficients and delta-max invariant under reversal / inversion / p<->n for every pattern up to a bound) + replay of every state with random class-preserving substitutions, reversal and inversion into the five getters + TLC trace validation of base and variants on long random sequences", NOTE),
  "C07": ("7 C07", "TLC model checking of the SCD coefficients (zero with < 2 charges, pattern-only, symmetric) + replay of every pattern up to a bound into get_SCD + TLC trace validation on long random / strongly correlated sequences with a sqrt table whose bracket TLC verifies", NOTE),
  "C02": ("7 C02", "TLC model checking of the patterning spec (every charge pattern up to a length bound is a state; the scaled-integer delta is shown equal to the Das-Pappu definition in exact rationals) + replay of every TLC state into get_delta + TLC trace validation (Trace_Queries) of get_delta replies recorded from the real code on long random sequences with random call histories",
